@@ -5,7 +5,7 @@
    behaviour that is observed by the correspondence harness and not modelled. *)
 From Verif Require Import Base.Prelude Base.StrUtil Base.Index Base.NdArr Model.MapSpec Model.MapSpecSpec
   Model.MapRun Model.MapDenote Model.SymBody Model.XrLabel Model.XrLabelSpec
-  Proofs.StrFacts Proofs.MapSpecFacts Proofs.XrLabelFacts Proofs.XrLabelCorr Corr.Run_C19.
+  Proofs.StrFacts Proofs.MapSpecFacts Proofs.XrLabelFacts Proofs.XrLabelTotal Proofs.XrLabelCorr Proofs.XrLabelCapstone Corr.Run_C19.
 
 (* Hypotheses shared by the theorems (all enforced by Pipeline construction):
      NoDup (out_names specs)               every array is the output of at most one function,
@@ -130,15 +130,66 @@ Print Assumptions C19_dataset_zipped_multiindex.
 (* "whose values equal the map result" / "identical datasets", model side (by C01_map_run_denotes): for a
    valid request the values that the model of the datasets shows for every output (Run_C19.run reads them
    from the model of Pipeline.map, `outv`) are the denotation, and returned and stored values agree *)
-Theorem C19_values_are_denotation : forall c den,
-  request_ok (c_funcs c) (c_inputs c) = true ->
-  denote_run sym_body (c_funcs c) (c_inputs c) (c_internal c) = Ok den ->
-  exists st, map_run sym_body (c_funcs c) (c_inputs c) (c_internal c) = Ok st
-    /\ (forall n, option_map (fun x => snd (fst x)) (find (fun x => str_eqb (fst (fst x)) n) (r_out st))
-                  = dict_get (d_out den) n)
+Theorem C19_values_are_denotation : forall q den,
+  request_ok (q_funcs q) (q_inputs q) = true ->
+  denote_run sym_body (q_funcs q) (q_inputs q) (q_internal q) = Ok den ->
+  exists st, map_run sym_body (q_funcs q) (q_inputs q) (q_internal q) = Ok st
+    /\ (forall n, outv_of (r_out st) n = dict_get (d_out den) n)
     /\ forallb (fun x => val_eqb (snd (fst x)) (snd x)) (r_out st) = true.
 Proof. exact model_values_denote. Qed.
 Print Assumptions C19_values_are_denotation.
+
+(* termination / totality: when the MapSpecs are listed in a topological order (`topo_specs`: no MapSpec
+   computes an input of an earlier one - a Pipeline is acyclic), the recursion of `_trace_dependencies`
+   never exhausts the fuel S (length specs) of the model, so trace_dependencies returns; and when every
+   array indexed by a MapSpec is an input or an output of the run, the labelling model returns a dataset.
+   With these, the `... = Ok _` hypotheses of the theorems above are consequences, not assumptions. *)
+Theorem C19_trace_fuel_suffices : forall specs,
+  NoDup (out_names specs) -> topo_specs specs = true ->
+  (forall o m, mapping_get specs o = Some m -> exists d, trace_dep (trace_fuel specs) specs o = Ok d)
+  /\ exists tr, trace specs = Ok tr.
+Proof.
+  intros specs Hnd Ht. split.
+  - intros o m M. exact (trace_dep_total specs o m Ht M).
+  - exact (trace_total specs Hnd Ht).
+Qed.
+Print Assumptions C19_trace_fuel_suffices.
+
+Theorem C19_dataset_total : forall specs inputs outputs li,
+  NoDup (out_names specs) -> topo_specs specs = true -> consistent (all_aspecs specs) = true ->
+  (forall ms a, In ms specs -> In a (outs ms) -> no_colon_axes a) ->
+  arrays_known specs inputs outputs ->
+  exists ds, dataset_vars specs inputs outputs li = Ok ds.
+Proof. exact dataset_vars_total. Qed.
+Print Assumptions C19_dataset_total.
+
+(* the dataset-level clauses of the property with NO `... = Ok _` hypothesis: for MapSpecs that are listed in a
+   topological order, name the dimensions consistently and only index deliverable arrays, the labelling model
+   returns a dataset in which every computed output is a labelled array with its declared axes as dims, every
+   visible one-dimensional array carried to it along k labels exactly (k,), and zipped ones share ONE
+   coordinate named by the ":"-join of its levels *)
+Theorem C19_dataset_labels_total : forall specs inputs outputs li,
+  NoDup (out_names specs) -> topo_specs specs = true -> consistent (all_aspecs specs) = true ->
+  forallb wf_aspec (all_aspecs specs) = true ->
+  (forall m a, In m specs -> In a (outs m) -> no_colon_axes a) ->
+  arrays_known specs inputs outputs ->
+  exists ds, dataset_vars specs inputs outputs li = Ok ds
+    /\ (forall o ms, computed_by specs o = Some ms -> In o outputs ->
+          exists a, In a (ds_arrays ds) /\ da_name a = o
+                    /\ exists asp, In asp (outs ms) /\ aname asp = o /\ da_dims a = indices asp)
+    /\ (forall o ms k x, computed_by specs o = Some ms -> In o outputs ->
+          one_dimensional specs x -> visible inputs li x = true ->
+          In x (carried (trace_fuel specs) specs o k) ->
+          (exists c, In c (ds_coords ds) /\ co_axes c = [k] /\ In x (co_srcs c))
+          /\ (forall c, In c (ds_coords ds) -> In x (co_srcs c) -> co_axes c = [k]))
+    /\ (forall o ms k x z, computed_by specs o = Some ms -> In o outputs ->
+          one_dimensional specs x -> visible inputs li x = true ->
+          one_dimensional specs z -> visible inputs li z = true ->
+          In x (carried (trace_fuel specs) specs o k) -> In z (carried (trace_fuel specs) specs o k) -> x <> z ->
+          exists c, In c (ds_coords ds) /\ co_axes c = [k] /\ In x (co_srcs c) /\ In z (co_srcs c)
+                    /\ co_name c = join (s ":") (co_srcs c)).
+Proof. exact dataset_labels_total. Qed.
+Print Assumptions C19_dataset_labels_total.
 
 (* selecting by coordinate value.  `sel_label` is the specification of label based selection on a
    one-dimensional coordinate (look the value up, slice the variable at the position found); the lookup
@@ -176,6 +227,22 @@ Theorem C19_spec_rejects_errors : forall c e, valid c = true -> spec_ok c (SErr 
 Proof. exact spec_rejects_errors. Qed.
 Print Assumptions C19_spec_rejects_errors.
 
+(* CAPSTONE - link to the differential check: outside the regions of the three known findings
+     region_conflict  an index name is used with two different sizes,
+     region_plain     an output without MapSpec is an array of rank >= 2,
+     region_zsel      a kind 1 case in which some data variable carries a zipped coordinate (a selection by the
+                      value of a zipped coordinate is attempted),
+   the observation of the model (Run_C19.run: resolve the request - constructing the auto-generated
+   MapSpecs -, run the model of Pipeline.map, label, render) satisfies the executable statement `spec_ok`
+   that the harness applies to the implementation's observations, for EVERY valid case.  The proof uses the
+   Prop-level theorems above (dims_are_axes, trace = carried, coordinate/zipped/dataset theorems, names
+   never collide, totality) and C01_map_run_denotes; the harness evaluates the same equation on samples
+   (`spec_failures_on_model`). *)
+Theorem C19_model_meets_spec : forall c,
+  valid c = true -> known_region c = false -> spec_ok c (run c) = true.
+Proof. exact capstone. Qed.
+Print Assumptions C19_model_meets_spec.
+
 (* ---------- the part of the property that the code does not satisfy ---------- *)
 (* Full statement (false):  forall c, valid c = true -> spec_ok c (run c) = true.
    For kind 1 cases (selection by the value of a zipped coordinate) the faithful model - the zipped
@@ -189,7 +256,7 @@ Definition zsel_witness (kind : nat) : case :=
                      fint := []; fret := [] |} ];
      c_inputs := [ (s "x", VA {| shp := [2]; dat := [s "x_0"; s "x_1"] |});
                    (s "z", VA {| shp := [2]; dat := [s "z_0"; s "z_1"] |}) ];
-     c_internal := []; c_li := true; c_kind := kind |}.
+     c_internal := []; c_li := true; c_kind := kind; c_order := [] |}.
 
 Theorem C19_sel_zipped_refuted :
   exists c, valid c = true /\ c_kind c = 1 /\ spec_ok c (run c) = false.
@@ -210,7 +277,7 @@ Definition conflict_witness : case :=
   {| c_funcs := [ mk1 "f" "y" "x" "i"; mk1 "g" "w" "u" "i" ];
      c_inputs := [ (s "x", VA {| shp := [3]; dat := [s "x_0"; s "x_1"; s "x_2"] |});
                    (s "u", VA {| shp := [2]; dat := [s "u_0"; s "u_1"] |}) ];
-     c_internal := []; c_li := true; c_kind := 0 |}.
+     c_internal := []; c_li := true; c_kind := 0; c_order := [] |}.
 
 Theorem C19_axis_size_conflict_refuted :
   exists c, valid c = true /\ spec_ok c (run c) = false.
@@ -222,7 +289,7 @@ Definition plain_array_witness : case :=
                   {| fname := s "g"; fouts := [s "t"]; fparams := [s "y"]; fbound := []; fdefaults := [];
                      fspec := None; fint := []; fret := [2; 2] |} ];
      c_inputs := [ (s "x", VA {| shp := [2]; dat := [s "x_0"; s "x_1"] |}) ];
-     c_internal := []; c_li := true; c_kind := 0 |}.
+     c_internal := []; c_li := true; c_kind := 0; c_order := [] |}.
 
 Theorem C19_unmapped_array_output_refuted :
   exists c, valid c = true /\ spec_ok c (run c) = false.
@@ -231,8 +298,9 @@ Print Assumptions C19_unmapped_array_output_refuted.
 
 (* non-vacuity of the executable statement: the same request satisfies everything else (kind 0) *)
 Example C19_example_label_ok :
-  valid (zsel_witness 0) = true /\ spec_ok (zsel_witness 0) (run (zsel_witness 0)) = true.
-Proof. vm_compute. split; reflexivity. Qed.
+  valid (zsel_witness 0) = true /\ known_region (zsel_witness 0) = false
+  /\ spec_ok (zsel_witness 0) (run (zsel_witness 0)) = true.
+Proof. vm_compute. repeat split; reflexivity. Qed.
 
 (* non-vacuity of the hypotheses: x[i], z[i] -> y[i] ; y[i], u[j] -> w[i, j] ; w[i, :] -> r[i] *)
 Definition ex_specs : list mapspec :=
@@ -258,6 +326,7 @@ Example C19_example_hypotheses :
   /\ (forall m a, In m ex_specs -> In a (outs m) -> no_colon_axes a)
   /\ is_ok (dataset_vars ex_specs inputs outputs true) = true
   /\ computed_by ex_specs (s "r") <> None
+  /\ topo_specs ex_specs = true /\ arrays_known ex_specs inputs outputs
   /\ is_ok (trace_dep (trace_fuel ex_specs) ex_specs (s "r")) = true
   /\ option_map ds_plain (match dataset_vars ex_specs inputs (outputs ++ [s "t"]) true with
                           | Ok ds => Some ds | Err _ => None end) = Some [s "t"].
@@ -272,22 +341,15 @@ Proof.
     repeat (destruct Hm as [<-|Hm]; [cbn in Ha; destruct Ha as [<-|[]]; destruct i as [|[|[|i]]]; cbn; discriminate|]).
     destruct Hm.
   - vm_compute. discriminate.
+  - intros m a Hm Ha. vm_compute in Hm.
+    repeat (destruct Hm as [<-|Hm]; [cbn in Ha; repeat (destruct Ha as [<-|Ha]; [vm_compute; tauto|]); destruct Ha|]).
+    destruct Hm.
 Qed.
 
 Example C19_example_values : (* the witness request is valid: the hypotheses of C19_values_are_denotation hold *)
-  request_ok (c_funcs (zsel_witness 0)) (c_inputs (zsel_witness 0)) = true
-  /\ is_ok (denote_run sym_body (c_funcs (zsel_witness 0)) (c_inputs (zsel_witness 0)) (c_internal (zsel_witness 0))) = true.
-Proof. vm_compute. split; reflexivity. Qed.
-
-(* non-vacuity of the selection theorems: a 2x3 variable with distinct labels on its second dimension *)
-Example C19_example_sel :
-  let a := {| shp := [2; 3]; dat := [s "a0"; s "a1"; s "a2"; s "a3"; s "a4"; s "a5"] |} in
-  let labels := [s "u_0"; s "u_1"; s "u_2"] in
-  nd_wf a = true /\ 1 < length (shp a) /\ length labels = nth 1 (shp a) 0 /\ NoDup labels
-  /\ nth_error labels 1 = Some (s "u_1")
-  /\ sel_label a 1 labels (s "u_1") = Ok {| shp := [2]; dat := [s "a1"; s "a4"] |}.
-Proof.
-  cbv zeta. repeat split; try reflexivity.
-  - cbn. lia.
-  - apply nodup_str_NoDup. reflexivity.
-Qed.
+  match resolve (zsel_witness 0) with
+  | Ok q => request_ok (q_funcs q) (q_inputs q)
+            && is_ok (denote_run sym_body (q_funcs q) (q_inputs q) (q_internal q))
+  | Err _ => false
+  end = true.
+Proof. vm_compute. reflexivity. Qed.
